@@ -63,9 +63,10 @@ def run(ctx):
         x = np.array([rng.uniform(-3, 3) if rng.random() < 0.7 else rng.choice([0.5, 1.0, 100.0, 1e-3, 0.0, 0.0, 1e-9, -1e-6])
                       for _ in range(dim)])
         stepkind = rng.choice(['default', 'default', 'min', 'max', 'scalar'])
-        cases.append((cls, m, n, order, x, stepkind))
+        cases.append([cls, m, n, order, x, stepkind])
     lines, metas = [], []
-    for (cls, m, n, order, x, stepkind) in cases:
+    for case in cases:
+        (cls, m, n, order, x, stepkind) = case
         dim = len(x)
         kw = dict(method=m)
         if cls == 'Derivative':
@@ -81,12 +82,24 @@ def run(ctx):
         elif stepkind == 'scalar':
             kw['step'] = rng.choice([0.01, 1e-3, 0.125])
         rec = []
+        # a quarter of the functions are not finite exactly at x (removable singularity, sin(x)/x at 0): what f returns must not change
+        # where it is evaluated
+        hole = rng.random() < 0.25
+        case.append(hole)
+
+        def punch(t, v, x=x, hole=hole, elementwise=(cls == 'Derivative')):
+            if not hole or not isinstance(t, np.ndarray) and not np.isscalar(t):
+                return v
+            at_x = np.asarray(t) == x
+            if elementwise:
+                return np.where(at_x, np.nan, v)
+            return (np.nan * v) if np.all(at_x) else v
         if cls == 'Derivative':
-            f = lambda t: (rec.append(canon(t)), t * t + 1.0)[1]
+            f = lambda t: (rec.append(canon(t)), punch(t, t * t + 1.0))[1]
         elif cls == 'Jacobian':
-            f = lambda t: (rec.append(canon(t)), np.array([t[0] * t[-1], t[0] + 2.0 * t[-1], t[-1] * t[-1]]))[1]
+            f = lambda t: (rec.append(canon(t)), punch(t, np.array([t[0] * t[-1], t[0] + 2.0 * t[-1], t[-1] * t[-1]])))[1]
         else:
-            f = lambda t: (rec.append(canon(t)), np.sum(t * t) + t[0] * t[-1])[1]
+            f = lambda t: (rec.append(canon(t)), punch(t, np.sum(t * t) + t[0] * t[-1]))[1]
         C = getattr(nd, cls)
         # a third of the objects reach their configuration by attribute assignment (constructed with another method of the same
         # family, or another order / n, then reassigned): the evaluation points must be those of the final configuration
@@ -144,13 +157,13 @@ def run(ctx):
     for case, meta in zip(cases, metas):
         if meta is None:
             continue
-        cls, m, n, order, x, stepkind = case
+        cls, m, n, order, x, stepkind, hole = case
         start, nsteps, rec, name, evalfirst, maxstep = meta
         dim = len(x)
         eng['cases'] += 1
         ctx.count('points', '%s/%s' % (cls, name))
         ctx.tried((cls, m, n, order, tuple(x), stepkind))
-        rep = dict(cls=cls, method=m, n=n, order=order, x=x.tolist(), step=stepkind, function=name)
+        rep = dict(cls=cls, method=m, n=n, order=order, x=x.tolist(), step=stepkind, function=name, f_not_finite_at_x=hole)
         xkey = [key4((v, 0.0, 0.0, 0.0)) for v in x]
         if cls == 'Derivative':
             # elementwise: per element the multiset of argument values
